@@ -10,6 +10,7 @@ package main
 
 import (
 	"bytes"
+	"sort"
 	"fmt"
 	"go/ast"
 	"go/parser"
@@ -212,6 +213,89 @@ func main() {
 	if iterInit == "" {
 		fail("could not extract the nextChild loop")
 	}
+	// package-level state of the trie package: its variables, writes to them outside their
+	// declarations, and reads of the fork configuration (proposal flags / block height)
+	pkgVars := map[string]bool{}
+	files, _ := filepath.Glob(filepath.Join(root, "src/storage/trie", "*.go"))
+	var asts []*ast.File
+	for _, fn := range files {
+		if strings.HasSuffix(fn, "_test.go") {
+			continue
+		}
+		f, err := parser.ParseFile(fset, fn, nil, 0)
+		if err != nil {
+			fail("parse %s: %v", fn, err)
+		}
+		asts = append(asts, f)
+		for _, d := range f.Decls {
+			if gd, ok := d.(*ast.GenDecl); ok && gd.Tok == token.VAR {
+				for _, sp := range gd.Specs {
+					for _, n := range sp.(*ast.ValueSpec).Names {
+						pkgVars[n.Name] = true
+					}
+				}
+			}
+		}
+	}
+	rootIdent := func(e ast.Expr) string {
+		for {
+			switch x := e.(type) {
+			case *ast.Ident:
+				if x.Obj != nil && x.Obj.Kind == ast.Var && x.Obj.Decl != nil {
+					if _, isSpec := x.Obj.Decl.(*ast.ValueSpec); isSpec && pkgVars[x.Name] {
+						return x.Name
+					}
+				}
+				return ""
+			case *ast.IndexExpr:
+				e = x.X
+			case *ast.SelectorExpr:
+				e = x.X
+			case *ast.StarExpr:
+				e = x.X
+			case *ast.SliceExpr:
+				e = x.X
+			case *ast.ParenExpr:
+				e = x.X
+			default:
+				return ""
+			}
+		}
+	}
+	pkgWrites, forkReads := 0, 0
+	for _, f := range asts {
+		ast.Inspect(f, func(n ast.Node) bool {
+			switch x := n.(type) {
+			case *ast.AssignStmt:
+				if x.Tok != token.DEFINE {
+					for _, l := range x.Lhs {
+						if rootIdent(l) != "" {
+							pkgWrites++
+						}
+					}
+				}
+			case *ast.IncDecStmt:
+				if rootIdent(x.X) != "" {
+					pkgWrites++
+				}
+			case *ast.SelectorExpr:
+				if id, ok := x.X.(*ast.Ident); ok && id.Name == "common" {
+					if strings.HasPrefix(x.Sel.Name, "IsProposal") || x.Sel.Name == "LocalChainConfig" ||
+						x.Sel.Name == "GetBlockHeight" || x.Sel.Name == "SetBlockHeight" || strings.HasPrefix(x.Sel.Name, "IsRobin") ||
+						strings.HasPrefix(x.Sel.Name, "IsMainnet") || strings.HasPrefix(x.Sel.Name, "IsDEV") {
+						forkReads++
+					}
+				}
+			}
+			return true
+		})
+	}
+	pv := make([]string, 0, len(pkgVars))
+	for k := range pkgVars {
+		pv = append(pv, k)
+	}
+	sort.Strings(pv)
+
 	var b strings.Builder
 	w := func(format string, a ...interface{}) { fmt.Fprintf(&b, format+"\n", a...) }
 	w("/- GENERATED by gen/cmd/c02facts from src/storage/trie of the working tree. Do not edit. -/")
@@ -241,6 +325,12 @@ func main() {
 	w("/-- iterator.go nextChild: the loop over a full node's children -/")
 	w("def iterLoopInit : String := %q", iterInit)
 	w("def iterLoopCond : String := %q", iterCond)
+	w("/-- package-level variables of src/storage/trie (non-test files) -/")
+	w("def packageVars : String := %q", strings.Join(pv, ","))
+	w("/-- assignments / ++ / -- whose target is (inside) one of them, outside their declarations -/")
+	w("def packageVarWrites : Nat := %d", pkgWrites)
+	w("/-- reads of proposal flags, chain configuration or block height anywhere in the package -/")
+	w("def forkConfigReads : Nat := %d", forkReads)
 	w("end Rangers.Generated.C02")
 	fmt.Print(b.String())
 }
